@@ -103,7 +103,10 @@ pub fn run(which: &'static str, ctx: &Ctx, rep: &mut Report) -> Value {
         // fold the per-key hashes into groups of GROUP consecutive keys (deterministic order)
         let mut c = chunks.lock().unwrap();
         for ((sname, klen, key), h) in perkey.into_inner().unwrap() {
-            let e = c.entry(format!("{sname}/{klen}/g{}", key as usize / GROUP)).or_insert(0x55);
+            // shadow subjects `Base@variant` go to the chunk of `Base` in the map of that variant
+            let base = crate::subjects::base_name(&sname);
+            let var = crate::subjects::variant_of(&sname);
+            let e = c.entry(format!("{var}|{base}/{klen}/g{}", key as usize / GROUP)).or_insert(0x55);
             *e = al::mix64(*e, h);
         }
     }
@@ -135,7 +138,13 @@ pub fn run(which: &'static str, ctx: &Ctx, rep: &mut Report) -> Value {
         special_chunks(which, crate::special::hazmat_cases(ctx.tier), rep, &chunks);
     }
     let m = chunks.into_inner().unwrap();
-    json!(m.into_iter().map(|(k, v)| (k, Value::from(format!("{v:016x}")))).collect::<serde_json::Map<_, _>>())
+    // { variant ("" = native code of this configuration): { chunk: hash } }
+    let mut out: BTreeMap<String, serde_json::Map<String, Value>> = BTreeMap::new();
+    for (k, v) in m {
+        let (var, name) = k.split_once('|').unwrap();
+        out.entry(var.to_string()).or_default().insert(name.to_string(), Value::from(format!("{v:016x}")));
+    }
+    json!(out)
 }
 
 fn special_chunks(which: &'static str, cases: Vec<crate::special::Case>, rep: &mut Report, chunks: &Mutex<BTreeMap<String, u64>>) {
@@ -161,14 +170,26 @@ fn special_chunks(which: &'static str, cases: Vec<crate::special::Case>, rep: &m
                 }
             }
         }
-        chunks.lock().unwrap().insert(format!("special/{name}"), h);
+        // "hazmat@armv8/0" -> variant armv8, chunk special/hazmat/0
+        let (var, nm) = match name.split_once('@') {
+            Some((a, rest)) => {
+                let (v, tail) = rest.split_once('/').unwrap_or((rest, ""));
+                (v.to_string(), format!("{a}/{tail}"))
+            }
+            None => (String::new(), name.clone()),
+        };
+        chunks.lock().unwrap().insert(format!("{var}|special/{nm}"), h);
     });
 }
 
 /// Full observations of one chunk (for locating the first difference between two builds).
 pub fn chunk_detail(name: &str, ctx: &Ctx) -> Value {
     let subjects = all_subjects();
+    let (var, name) = name.split_once('|').unwrap_or(("", name));
     if let Some(rest) = name.strip_prefix("special/") {
+        // special/hazmat/0 in variant armv8 is the chunk "hazmat@armv8/0"
+        let rest_owned = if var.is_empty() { rest.to_string() } else { match rest.split_once('/') { Some((a, b)) => format!("{a}@{var}/{b}"), None => rest.to_string() } };
+        let rest = rest_owned.as_str();
         use crate::special as sp;
         let mut all = Vec::new();
         all.extend(sp::hazmat_cases(ctx.tier));
@@ -187,7 +208,8 @@ pub fn chunk_detail(name: &str, ctx: &Ctx) -> Value {
         return json!(v);
     }
     let mut parts = name.split('/');
-    let sname = parts.next().unwrap_or("");
+    let sname_owned = { let b = parts.next().unwrap_or(""); if var.is_empty() { b.to_string() } else { format!("{b}@{var}") } };
+    let sname = sname_owned.as_str();
     let klen: usize = parts.next().and_then(|x| x.parse().ok()).unwrap_or(0);
     let group: usize = parts.next().and_then(|x| x.strip_prefix('g')).and_then(|x| x.parse().ok()).unwrap_or(0);
     let Some(s) = subjects.iter().find(|x| x.name() == sname) else { return json!([]) };
